@@ -526,7 +526,7 @@ def clause_escape_flag(facts, rep, nss):
 
 
 def run(rep, tier):
-    configs = ['K1'] if tier == 'quick' else ['K1', 'K3', 'K4']
+    configs = ['K1', 'K3'] if tier == 'quick' else ['K1', 'K3', 'K4']
     for cfg in configs:
         facts = get_facts(cfg)
         rep.unit(facts)
